@@ -45,7 +45,12 @@ impl Decoder for WithLengthBytesCodec {
         } else {
             let mut bytes = src.as_ref();
             let len = bytes.get_u64() as usize;
-            if src.remaining() >= LEN_SIZE + len {
+            if src
+                .remaining()
+                .checked_sub(LEN_SIZE)
+                .map(|rem| rem >= len)
+                .unwrap_or(false)
+            {
                 src.advance(LEN_SIZE);
                 Ok(Some(src.split_to(len)))
             } else {
